@@ -93,7 +93,7 @@ def gen_cases(tier, seed):
             if prior == "full" and sz > 24 << 20:
                 sz = 24 << 20
             pre.append({"p": dstp, "k": "f", "size": sz, "seed": r.randrange(1, 1 << 30), "segs": None, "sync": True})
-        workers = r.choice([1, 2, 3, 4, 8, 16])
+        workers = r.choice([0, 1, 2, 3, 4, 8, 16])
         args = ["--driver", driver, "-w", str(workers), "--reflink", r.choice(["auto", "never"])]
         args += ["--no-progress"] if bsv is None else ["--block-size", str(bsv)]
         for o, pr in (("--fsync", 0.15), ("--no-perms", 0.1), ("--no-timestamps", 0.1), ("--ownership", 0.1), ("-L", 0.05), ("--gitignore", 0.05)):
